@@ -21,11 +21,16 @@ structure QueryEq (g : Grammar) (t1 t2 : Table) : Prop where
 section congr
 variable (env : Env) (t2 : Table)
 
-theorem tokenIter_congr (pos : Pos) :
-    ∀ l, tokenIter { env with t := t2 } pos l = tokenIter env pos l
-  | [] => rfl
-  | (k, fin) :: rest => by
-    simp only [tokenIter, tokenIter_congr pos rest]
+theorem tokenIterAux_congr (pos : Pos) :
+    ∀ (l : List (Nat × Bool)) (m : Bool),
+      tokenIterAux { env with t := t2 } pos m l = tokenIterAux env pos m l
+  | [], _ => by simp only [tokenIterAux]
+  | (k, fin) :: rest, m => by
+    simp only [tokenIterAux, tokenIterAux_congr pos rest]
+
+theorem tokenIter_congr (pos : Pos) (l : List (Nat × Bool)) :
+    tokenIter { env with t := t2 } pos l = tokenIter env pos l := by
+  simp only [tokenIter, tokenIterAux_congr]
 
 theorem lexNext_congr (ctx : Ctx) (exp : List (Nat × Bool)) :
     lexNext { env with t := t2 } ctx exp = lexNext env ctx exp := by
